@@ -457,15 +457,30 @@ func (w *WaitGroup) Wait() {
 // only be called while no execution is in progress.
 //
 //go:norace
-func ResetAll() {
+func ResetAll() { resetAll(false) }
+
+// ResetFirstUse puts the shimmed objects into the state of a process that has not used the packages yet: what lazy
+// initialisation guards - flags and counters (typed atomic booleans and integers), Once objects, concurrent maps -
+// goes back to zero / empty even if an init function of the harness's imports has already triggered that
+// initialisation; structures published through atomic pointers and values keep what the init functions stored.
+func ResetFirstUse() { resetAll(true) }
+
+// FirstUse tells the reset actions of other shims (vatomic) which of the two resets is running.
+var FirstUse bool
+
+func resetAll(firstUse bool) {
+	FirstUse = firstUse
+	defer func() { FirstUse = false }()
 	for _, o := range onces {
 		o.real = &sync.Once{}
 		o.running = false
 	}
 	for _, m := range maps {
 		m.m.Range(func(k, _ any) bool { m.m.Delete(k); return true })
-		for _, kv := range mapBase[m] {
-			m.m.Store(kv[0], kv[1])
+		if !firstUse {
+			for _, kv := range mapBase[m] {
+				m.m.Store(kv[0], kv[1])
+			}
 		}
 	}
 	rs := resets
